@@ -3,7 +3,8 @@ import OjgVerif.Gen.Reflect
 /-! # C16 — Recompose is independent of the history (PARTIAL: registry logic on a model)
 
 In one sentence: the title clause (Decompose/Recompose and Marshal/Unmarshal are inverse on values) is
-NOT proved here, only run; what is proved is the history clause, and only for target types WITHOUT an
+NOT proved in THIS file — since round 3 it is proved, for a named fragment, in `Props/C16inv.lean` —;
+what is proved here is the history clause, and only for target types WITHOUT an
 `interface{}` slot (`noIface`) — which excludes exactly the case where a create-key name in the data
 is resolved against the registry, the one place where the history matters by design. Recursive struct
 types are not values of `GoType` (a finite tree).
@@ -33,8 +34,9 @@ Proved here, for every datum, fuel and create key:
   literal type with the first one's index and lost the fields of a nested struct literal without
   any history; `current_decodes_witnesses`: the code as it is now decodes both correctly.
 
-Not proved (checked by the oracle of the harness only): that `recomposePure` inverts `Decompose`
-and `Unmarshal` inverts `Marshal` on the value level. `reflect` is below the model. -/
+That `recomposePure` inverts `Decompose` on the value level (and the tree of `Marshal`) is the subject
+of `Props/C16inv.lean` (fragment `rtOK`); outside that fragment it is checked by the oracle of the
+harness only. `reflect` is below the model. -/
 namespace OjgVerif.C16
 open OjgVerif OjgVerif.Reflect
 
